@@ -21,7 +21,7 @@ import time
 from concurrent.futures import ThreadPoolExecutor
 
 from vlib import cbuild, coqbuild
-from vlib.common import CACHE, NCPU, sh
+from vlib.common import CACHE, NCPU, VERIF, sh
 
 PROP_FILE = "Properties_C12.v"
 KINDS = "QRBN"
@@ -162,6 +162,27 @@ class Runner:
         summ = [l for l in out.split("\n") if l.startswith("SCOPE ")]
         return {"cls": cls, "backend": be, "rc": rc, "bad": bad, "summary": summ[0] if summ else "", "n": n}
 
+    def check_rules(self, job):
+        """SPEC validation: MiniChess legality / check / successor positions vs the engine's MoveGen."""
+        cls, seed, n = job
+        rc, out, err = sh([self.cpp, "rules", cls, str(seed), str(n)], timeout=900)
+        if rc != 0:
+            return {"cls": cls, "ok": False, "out": out[-500:] + err[-1500:], "n": 0, "moves": 0}
+        rc2, out2, err2 = sh([self.ml, "rules", cls], input=out, timeout=900)
+        d = {}
+        for line in out2.split("\n"):
+            if line.startswith("RULESCHECK"):
+                d = parse_obs(line)
+        ok = rc2 == 0 and d.get("bad") == "0"
+        return {"cls": cls, "ok": ok, "out": out2[-3000:] + err2[-1000:], "n": int(d.get("n", 0)), "moves": int(d.get("moves", 0)),
+                "illegal": int(d.get("illegal", 0)), "incheck": int(d.get("incheck", 0))}
+
+    def check_points(self, job):
+        cls, be, idxs = job
+        rc, out, err = sh([self.ml, "points", cls, self.dump_path(cls, be)], input="\n".join(str(i) for i in idxs) + "\n", timeout=600)
+        ok = rc == 0 and (" bad=0" in out)
+        return {"cls": cls, "backend": be, "ok": ok, "out": out[-6000:], "err": err[-2000:], "rc": rc, "n": len(idxs)}
+
     def explain(self, cls, be, idx):
         rc, out, err = sh([self.ml, "explain", cls, self.dump_path(cls, be), str(idx)], timeout=600)
         return out
@@ -208,8 +229,10 @@ def raw_to_text(r):
     if r == 0:
         return "draw (score 0)"
     if r > 0:
-        return "mate in %d (score %d)" % ((32000 - r) // 2, r)
-    return "mated in %d (score %d)" % ((32000 - 1 + r) // 2, r)
+        d = 32000 - r
+        return ("mate in %d (score %d)" % (d // 2, r)) if d % 2 == 0 and d >= 2 else "score %d (not a score the encoding can produce)" % r
+    d = 32000 - 1 + r
+    return ("mated in %d (score %d)" % (d // 2, r)) if d % 2 == 0 and d >= 0 else "score %d (not a score the encoding can produce)" % r
 
 
 # ---------------------------------------------------------------------------------------------
@@ -234,8 +257,15 @@ def finder(ctx, R, cls, be, fail_out):
                             "explain": R.explain(cls, be, i)})
                 return rep, "%s/%s/%d" % (cls, be, i)
     if idx is not None:
-        rep.update({"index": idx, "placement": describe(cls, idx), "fen": fen_of(cls, idx),
-                    "explain": R.explain(cls, be, idx)})
+        ex = R.explain(cls, be, idx)
+        rep.update({"index": idx, "placement": describe(cls, idx), "fen": fen_of(cls, idx), "explain": ex})
+        import re
+        m = re.search(r"raw=(-?\d+)", ex)
+        m2 = re.search(r"expected from the children's labels: (.*)", ex)
+        if m:
+            rep["engine"] = raw_to_text(int(m.group(1)))
+        if m2:
+            rep["expected_from_engine_children"] = m2.group(1)
         return rep, "%s/%s/%d" % (cls, be, idx)
     return rep, None
 
@@ -452,6 +482,16 @@ def _run(ctx, R, proof_broken, info):
     scf = [pool.submit(run_script, R, s) for s in scripts]
     # ---- ply / stats / scope
     okd = [d for d in d3 if d["rc"] == 0] + okd4
+    # ---- corpus of past failures (runs on the dumps of this run)
+    corpus = {}
+    cpath = os.path.join(VERIF, "corpus", "c12.txt")
+    if os.path.exists(cpath):
+        for line in open(cpath):
+            tk = line.split("#")[0].split()
+            if len(tk) >= 2:
+                corpus.setdefault(tk[0], []).append(int(tk[1]))
+    rulef = [pool.submit(R.check_rules, (c, rng.randrange(1, 1 << 30), ctx.scale(20000, 300000))) for c in three[1:] + four]
+    cpf = [pool.submit(R.check_points, (d["cls"], d["backend"], corpus[d["cls"]])) for d in okd if d["cls"] in corpus]
     plyf = [pool.submit(R.check_ply, (d["cls"], d["backend"])) for d in okd]
     statf = [pool.submit(R.stats, (d["cls"], d["backend"])) for d in okd]
     scopef = [pool.submit(R.scope, (d["cls"], d["backend"], rng.randrange(1, 1 << 30), ctx.scale(3000, 30000))) for d in okd if len(d["cls"]) >= 3]
@@ -471,6 +511,15 @@ def _run(ctx, R, proof_broken, info):
         n = (r["hi"] - r["lo"]) * pow65(3) * 2
         ctx.evaluated(n)
         ctx.count("placements_certified_4man", n)
+    cps = [f.result() for f in cpf]
+    ctx.count("corpus_points_checked", sum(r["n"] for r in cps))
+    ctx.evaluated(sum(r["n"] for r in cps))
+    rules = [f.result() for f in rulef]
+    ctx.count("spec_rules_positions_vs_MoveGen", sum(r["n"] for r in rules))
+    ctx.count("spec_rules_moves_vs_MoveGen", sum(r["moves"] for r in rules))
+    ctx.count("spec_rules_illegal_positions", sum(r.get("illegal", 0) for r in rules))
+    ctx.count("spec_rules_positions_in_check", sum(r.get("incheck", 0) for r in rules))
+    ctx.evaluated(sum(r["n"] for r in rules))
     plys = [f.result() for f in plyf]
     stats = [f.result() for f in statf]
     scopes = [f.result() for f in scopef]
@@ -522,9 +571,14 @@ def _run(ctx, R, proof_broken, info):
         ctx.violation("table generation / dump failed for %s (%s)" % (d["cls"], d["backend"]),
                       {"class": d["cls"], "backend": d["backend"], "harness": d.get("err", "")}, no_failing_input=True)
     reported = set()
-    for r in c3 + c4 + s4:
+    failed_tables = sorted({(r["cls"], r["backend"]) for r in cps + c3 + c4 + s4 if not r["ok"]})
+    if failed_tables:
+        ctx.notes["tables_failing_the_certificate"] = ["%s/%s" % x for x in failed_tables]
+    for r in cps + c3 + c4 + s4:
         if r["ok"] or (r["cls"], r["backend"]) in reported:
             continue
+        if len(reported) >= 4:          # one replay per table for the first four; the rest is listed in the evidence
+            break
         reported.add((r["cls"], r["backend"]))
         rep, key = finder(ctx, R, r["cls"], r["backend"], r["out"] + r["err"])
         if key:
@@ -533,17 +587,20 @@ def _run(ctx, R, proof_broken, info):
                 (", specification says " + rep["spec"]) if "spec" in rep else ""), rep, key=key)
         else:
             ctx.violation("certificate check of %s (%s) failed" % (r["cls"], r["backend"]), rep, no_failing_input=True)
-    for p in plys:
+    for p in [p for p in plys if not p["ok"]][:2]:
         if not p["ok"]:
             ctx.violation("probe score does not shift with ply as the encoding demands (%s %s)" % (p["cls"], p["backend"]),
                           {"class": p["cls"], "backend": p["backend"], "driver": p["out"], "err": p["err"]},
                           key="ply/%s/%s" % (p["cls"], p["backend"]))
-    for s in scopes:
+    for s in [s for s in scopes if s["rc"] != 0 or s["bad"]][:2]:
         if s["rc"] != 0 or s["bad"]:
             ctx.violation("probeDTM answers a position outside the table's scope (%s %s)" % (s["cls"], s["backend"]),
                           {"class": s["cls"], "backend": s["backend"], "answered": s["bad"][:5], "rc": s["rc"]},
                           key=("scope/" + s["bad"][0]) if s["bad"] else None, no_failing_input=not s["bad"])
 
+    for r in [r for r in rules if not r["ok"]][:2]:
+        ctx.violation("the specification's chess rules (coq/TB/MiniChess.v) and the engine's MoveGen disagree on a %s position" % r["cls"],
+                      {"class": r["cls"], "driver": r["out"]}, key="rules/" + r["cls"])
     # ---- abort state machine
     v = judge_scripts(ctx, R, script_res)
     ctx.count("abort_injections_hit", v["aborted"])
